@@ -59,3 +59,6 @@ for pp, pf in [(4, 1), (4, 0)]:   # p=0 (null document turned into an array by t
 for rk, nm in [(0, 'raw'), (1, 'copied_string')]:
     OBS.append(Ob(['C06', 'C14', 'C19'], 'release_' + nm, 'doc', 'harness/doc_hist.c', 'h_raw_release', defs=['RAWKIND=%d' % rk], unwind=8, desc='element.set(%s of 2 bytes); element.set(int): the string node is released exactly when the value is replaced (VariantData::clear)' % nm, bound='all byte pairs, all int32', **H))
 OBS.append(Ob(['C05', 'C19', 'C06'], 'hist_add_str_fail', 'doc', 'harness/doc_hist.c', 'h_add_str_fail', unwind=8, desc='[a,a,a]; add(copied string) whose node allocation fails; add(b): failure reported, slot given back (no allocator call for b), document [a,a,a,b]', bound='all int32 values, all byte pairs', **H))
+OBS.append(Ob(['C13'], 'copyarray_2d_out', 'doc', 'harness/doc_hist.c', 'h_copyarray_2d_out', unwind=8, desc='copyArray([[a,b,x],[c]], int dst[2][2]): extra column dropped, missing cell untouched, guard cells untouched', bound='all int32 values', **H))
+OBS.append(Ob(['C13', 'C04'], 'copyarray_2d_in', 'doc', 'harness/doc_hist.c', 'h_copyarray_2d_in', unwind=8, desc='copyArray(int src[2][2], doc): [[a,b],[c,d]]', bound='all int32 values', **H))
+OBS.append(Ob(['C04', 'C06'], 'hist_nested_remove', 'doc', 'harness/doc_hist.c', 'h_nested_remove', unwind=8, desc='[[a,b],c]; remove(0); add x3: the nested array and its elements are released, all three slots reused with no allocator call, document [c,d,d,d]', bound='all int32 values', **H))
